@@ -335,6 +335,14 @@ def r5_sources(rep, ctx):
             # the category string lists every (category, exponent) entry of the map
             fed = any(x[0] == "gen" and x[1][0] == "tuple" and len(x[1][1]) == 2 and _entry_path(x[1][1][0])[1] == (0,) and _entry_path(x[1][1][1])[1] == (1, 1)
                       and _entry_path(x[1][1][0])[0] in (MAPF, PCAT) for x in walk(t)) and not _filtered_views(init)
+            if not fed:
+                # or a list filled, entry by entry, in a loop over the composing map
+                from ..accum import appends
+                for ap in appends(m, init, ires):
+                    e_ = ap["elt"]
+                    if e_[0] == "tuple" and len(e_[1]) == 2 and _entry_path(e_[1][0])[1] == (0,) and _entry_path(e_[1][1])[1] == (1, 1) and _entry_path(e_[1][0])[0] in (MAPF, PCAT) \
+                            and not ap["conditional"] and _derives_from(ires, st.value, {"dict": ap["list"]}):
+                        fed = True
             if not fed and any(x[0] == "gen" for x in walk(t)) is False:
                 raise AnalysisError("Quantity.__init__: the category string is not built from a comprehension over the composing map (idiom changed)")
         rep.check(ok and fed, "C20.R5", "Quantity.__init__:derived:%s" % attr, "derived %s is %s over the composing map" % (attr, builder),
